@@ -57,15 +57,20 @@ type createdFile struct {
 	wk   string    // the week-end file when the counter file was created
 }
 
+// suspendListed: the known finding C09-suspended-past-the-end is listed (its
+// window suspend-resume is closed): the suspend/resume jump is not generated.
+var suspendListed bool
+
 // scenarioC09 (counter side): a rotating process over a simulated calendar.
 func scenarioC09(c *hlib.RunCtx) *hlib.Violation {
 	// Crashes and lost counts in this world are C03/C05's business; the known
 	// C03 defect is kept out of the way so that runs are not cut short by it.
+	suspendListed = strings.Contains(c.Flag("windows"), "suspend-resume")
 	c.Flags["windows"] = "munmap-with-holders"
 	v := scenarioC09x(c)
 	if v != nil {
 		switch v.Invariant {
-		case "begin", "end", "name-date", "old-file-written", "rotation-liveness", "well-formed", "value-bounded", "early-rotation", "conservation", "nothing-pending", "upper-bound":
+		case "begin", "end", "name-date", "old-file-written", "rotation-liveness", "rotation-after-suspend", "well-formed", "value-bounded", "early-rotation", "conservation", "nothing-pending", "upper-bound":
 			return v
 		case "panic", "unbounded-loop", "waits-forever", "memory-fault":
 			// The circumstances of this world (odd week-end files, clock set back,
@@ -129,6 +134,7 @@ func scenarioC09x(c *hlib.RunCtx) *hlib.Violation {
 
 	var created []createdFile
 	steppedBack := false
+	suspended := false
 	seenCalls := 0
 	frozen := map[string]map[string]uint64{} // old file -> values when a rotation completed
 	inflightAt := map[string]uint64{}        // name -> amount in flight when the latest rotation completed
@@ -230,6 +236,11 @@ func scenarioC09x(c *hlib.RunCtx) *hlib.Violation {
 		// the clock moves while the increments are in flight
 		kind := t.Draw(7)
 		extra := t.Draw(40)
+		if !suspendListed && t.Bool(1, 8) {
+			// Known finding C09-suspended-past-the-end: the machine sleeps past the
+			// recorded end; while that finding is listed this jump is not generated.
+			kind = 7
+		}
 		if kind == 6 {
 			steppedBack = true
 		}
@@ -250,6 +261,19 @@ func scenarioC09x(c *hlib.RunCtx) *hlib.Violation {
 				target = end.Add(time.Duration(extra) * time.Hour)
 			case 5:
 				target = s.NowT().Add(time.Duration(extra) * time.Minute)
+			}
+			if kind == 7 {
+				// suspended and resumed: the wall clock is past the recorded end (or just
+				// some days ahead), the timers have not moved
+				fwd := time.Duration(1+extra) * time.Hour
+				if !end.IsZero() && extra%2 == 0 {
+					fwd = end.Sub(s.NowT()) + time.Duration(extra)*time.Hour
+				}
+				jumps = append(jumps, "suspended "+fwd.String())
+				suspended = true
+				s.StepForward(fwd)
+				s.Probe("jump-kind-7")
+				return
 			}
 			if kind == 6 {
 				// the wall clock is set back (minutes to days); timers keep running
@@ -369,7 +393,10 @@ func scenarioC09x(c *hlib.RunCtx) *hlib.Violation {
 				b, _ := time.Parse(time.RFC3339, d.Meta["TimeBegin"])
 				e, _ := time.Parse(time.RFC3339, d.Meta["TimeEnd"])
 				now := s.NowT()
-				if now.Before(b) || !now.Before(e) {
+				if at, pending := s.NextTimer(); suspended && pending && !now.Before(e) {
+					w.fail("rotation-after-suspend", "the machine was suspended and resumed at or after the recorded end: the clock reads %s, the process still records into %s (%s .. %s) and will do so for another %s of waking time, because the rotation timer runs on the monotonic clock",
+						now.Format(time.RFC3339Nano), filepath.Base(name), d.Meta["TimeBegin"], d.Meta["TimeEnd"], at.Sub(now))
+				} else if now.Before(b) || !now.Before(e) {
 					w.fail("rotation-liveness", "clock reads %s and all timers have fired, but the process still records into %s (%s .. %s)", now.Format(time.RFC3339Nano), filepath.Base(name), d.Meta["TimeBegin"], d.Meta["TimeEnd"])
 				}
 			}
